@@ -25,6 +25,43 @@ mod output_diff;
 static EXIT_CODE: AtomicI32 = AtomicI32::new(0);
 static UNFORMATTED_FILE_COUNT: AtomicU32 = AtomicU32::new(0);
 
+/// Verification hook (only with `--cfg stylua_verif`): named schedule points.
+/// `STYLUA_VERIF_SCHED=a,b,c` makes the listed points pass in that order (a thread reaching a
+/// listed point waits until all points listed before it have been passed; unlisted points
+/// pass freely; a wait gives up after 3 seconds so a schedule can never deadlock the tool).
+#[cfg(stylua_verif)]
+mod verif_sched {
+    use std::sync::Mutex;
+    static PASSED: Mutex<Vec<String>> = Mutex::new(Vec::new());
+
+    pub fn point(name: &str) {
+        let order: Vec<String> = match std::env::var("STYLUA_VERIF_SCHED") {
+            Ok(list) => list.split(',').map(|x| x.to_string()).collect(),
+            Err(_) => return,
+        };
+        let index = match order.iter().position(|x| x == name) {
+            Some(index) => index,
+            None => return,
+        };
+        let start = std::time::Instant::now();
+        loop {
+            {
+                let mut passed = PASSED.lock().unwrap();
+                if passed.iter().any(|x| x == name) {
+                    return; // each point orders its first passage only
+                }
+                if order[..index].iter().all(|x| passed.contains(x))
+                    || start.elapsed().as_secs() >= 3
+                {
+                    passed.push(name.to_string());
+                    return;
+                }
+            }
+            std::thread::sleep(std::time::Duration::from_millis(1));
+        }
+    }
+}
+
 enum FormatResult {
     /// Operation was a success, the output was either written to a file or stdout. If diffing, there was no diff to create.
     Complete,
@@ -357,8 +394,14 @@ fn format(opt: opt::Opt) -> Result<i32> {
                     }
                     FormatResult::Diff(diff) => {
                         if EXIT_CODE.load(Ordering::SeqCst) != 2 {
+                            #[cfg(stylua_verif)]
+                            verif_sched::point("diff-loaded");
+                            #[cfg(stylua_verif)]
+                            verif_sched::point("diff-store");
                             EXIT_CODE.store(1, Ordering::SeqCst);
                         }
+                        #[cfg(stylua_verif)]
+                        verif_sched::point("diff-done");
 
                         UNFORMATTED_FILE_COUNT.fetch_add(1, Ordering::SeqCst);
 
@@ -506,7 +549,9 @@ fn format(opt: opt::Opt) -> Result<i32> {
                 ignore::Error::WithPath { path, err } => match *err {
                     ignore::Error::Io(error) => match error.kind() {
                         std::io::ErrorKind::NotFound => {
-                            error!("no file or directory found matching '{:#}'", path.display())
+                            error!("no file or directory found matching '{:#}'", path.display());
+                            #[cfg(stylua_verif)]
+                            verif_sched::point("walker-error");
                         }
                         _ => error!("{:#}", error),
                     },
